@@ -263,3 +263,19 @@ Require Import Py.Defaults.
 Theorem C16_no_shared_default_state : all_defaults_safe src_fundefs = true.
 Proof. vm_compute. reflexivity. Qed.
 Print Assumptions C16_no_shared_default_state.
+
+(* the composite marginalisation evaluates J at the point the grids are normalised by (anisotropy base values, MEAN of the inner-slope axis,
+   MEAN of the mass-to-light axis in the population-level mode), errors on; J-model = mean over the draws, covariance = numpy.cov of sqrt(J) *)
+Theorem C16_composite_marginalisation : forall a0 a1 b0 b1 g0 g1 g2 l0 l1 (cv ka : val) rg cu, 0 <= a0 -> 0 <= a1 -> 0 <= b0 -> 0 <= b1 ->
+  yields (Gmc a0 a1 b0 b1 cv ka) 120 (CFun src_KinConstraintsComposite_model_marginalization) (Some (cobj g0 g1 g2 l0 l1 true)) [VInt 2] [] rg cu
+    (VTuple [vec [(a0 + (b0 + 0)) / 2; (a1 + (b1 + 0)) / 2]; cv]) cu
+    [("np.cov", [VArr [VList [num (sqrt a0); num (sqrt b0)]; VList [num (sqrt a1); num (sqrt b1)]]]);
+     ("j_kin_draw_composite", [ka; num ((g0 + (g1 + (g2 + 0))) / 3); num ((l0 + (l1 + 0)) / 2); VBool false]);
+     ("j_kin_draw_composite", [ka; num ((g0 + (g1 + (g2 + 0))) / 3); num ((l0 + (l1 + 0)) / 2); VBool false])]
+  /\ yields (Gmc a0 a1 b0 b1 cv ka) 120 (CFun src_KinConstraintsComposite_model_marginalization) (Some (cobj g0 g1 g2 l0 l1 false)) [VInt 2] [] rg cu
+    (VTuple [vec [(a0 + (b0 + 0)) / 2; (a1 + (b1 + 0)) / 2]; cv]) cu
+    [("np.cov", [VArr [VList [num (sqrt a0); num (sqrt b0)]; VList [num (sqrt a1); num (sqrt b1)]]]);
+     ("j_kin_draw_composite_m2l", [ka; num ((g0 + (g1 + (g2 + 0))) / 3); VBool false]);
+     ("j_kin_draw_composite_m2l", [ka; num ((g0 + (g1 + (g2 + 0))) / 3); VBool false])].
+Proof. intros. split; [apply comp_marginalisation_pop | apply comp_marginalisation_m2l]; assumption. Qed.
+Print Assumptions C16_composite_marginalisation.
